@@ -329,7 +329,8 @@ SPECIAL = {
              "\xe9\xe9", "€", "1 Jan 2020 1:2", "1 Jan 2020 1.2.3 GMT", "99999999999999999999 Jan 2020", "1 Jan 2020 99999999999999999999:0 GMT"],
     "list": ["", ",", " , ", "a", "a,b", "a, b", " a ,, b ", "\xe9", ",,,"],
     "auth": ["", "Basic", "Basic ", "Basic abc==", 'Basic "x"', "Digest", 'Digest a="b", c=d', 'Digest a="b', "Digest a=", "Digest =",
-             'Digest a="b"c", d=e', "Digest a = b , c", "Foo bar", " Basic x", "Digest " + "a=b, " * 50, 'Digest a="\n"', "Digest a=\n,b=c"],
+             'Digest a="b"c", d=e', "Digest a = b , c", "Foo bar", " Basic x", "Digest " + "a=b, " * 50, 'Digest a="\n"', "Digest a=\n,b=c",
+             'Digest a="x", b="y"', 'Digest a="x" , b="y", c="z"', 'Digest a="x"y", b="z"', 'Digest a="x",b="y" ', 'Digest a="x", b="y"z'],
     "cache_control": ["", "max-age=5", "public, max-age=5", 'private="a, b"', 'x="', "123", ",", "max-age=" + "1" * 4301,
                       "max-age=1_0", 'max-age=" 5 "', "a=b=c", "MAX-AGE=5", "max-age =5", "max-age= 5", "no-cache, no-cache=x",
                       "\xe9=5", "a-", "a_b=c", "a\xa0=5"],
@@ -796,6 +797,10 @@ def ref_cc_parse(text):
     return out
 
 
+_DIRECTIVE = r'%s(?:=(?:[^\s",;=]*|"[^"]*"))?' % TOKEN
+CC_WELL_FORMED = re.compile(r"\A\s*%s(?:\s*,\s*%s)*\s*\Z" % (_DIRECTIVE, _DIRECTIVE))
+
+
 def cc_view(props):
     return {k: (None if v is None else str(v)) for k, v in props.items()}
 
@@ -952,7 +957,8 @@ def o_cc(case):
         if t == "assign" and isinstance(op[1], (dict, str)) and len(op) == 3 and view != op[2]:
             return ("cc-live:%s:assign-not-seen" % side, "%s: the object shows %r, expected %r" % (where, view, op[2]))
         hdr1 = cc_header(side, r)
-        if view:
+        if view and (hdr1 == s or hdr1 in (ABSENT, "") or CC_WELL_FORMED.match(hdr1)):
+            # (a malformed text the caller stored is judged only through the parse the object shows of it)
             got = denotes(hdr1)
             if got != view:
                 return ("cc-live:%s:object-header-differ" % side, "%s: object shows %r, %s is %r" % (where, view, key, hdr1))
@@ -1182,7 +1188,7 @@ def oracle_sweep(ctx):
 # ----------------------------------------------------------------------------------------------
 IMPORTS = ["Webob.Lib.PyStr", "Webob.Lib.C12_PyInt", "Webob.Lib.C12_Civil", "Webob.Model.C12_Headers",
            "Webob.Model.C12_ByteRange", "Webob.Model.C12_Dates", "Webob.Model.C12_CacheControl", "Webob.Model.C12_AuthCT", "Webob.Model.C12_Attrs"]
-CFG = {"anch": False, "zn": False}
+CFG = {"anch": False, "zn": False, "req_drop": True}
 
 
 def source_cfg(ctx):
@@ -1204,7 +1210,11 @@ def source_cfg(ctx):
         ctx.broken.append("byterange._rx_content_range is %r: not the form the scanner model knows" % crp.pattern)
     src = inspect.getsource(byterange.Range.parse)
     CFG["zn"] = "not int(end)" in src
-    ctx.note("source variant: _rx_range anchored=%s, bytes=-0 unparsable=%s" % (CFG["anch"], CFG["zn"]))
+    from webob.request import BaseRequest
+    src = inspect.getsource(BaseRequest._update_cache_control)
+    CFG["req_drop"] = bool(re.search(r'\["webob\._cache_control"\]\s*=\s*\(None,\s*None\)', src))
+    ctx.note("source variant: _rx_range anchored=%s, bytes=-0 unparsable=%s, request cache entry dropped on write=%s"
+             % (CFG["anch"], CFG["zn"], CFG["req_drop"]))
 
 
 def cfields(f):
@@ -1871,7 +1881,7 @@ def corr_group4(ctx):
     # the two bindings, over histories
     n = ctx.scale(400, 6000)
     for side, fn, ty in (("resp", "(fun c => run_resp_cc (match fst c with Some t => [(cc_name, t)] | None => [] end) (snd c))", "(option str * list cop)"),
-                         ("req", "(fun c => run_req_cc (fst c) (snd c))", "(option str * list qop)")):
+                         ("req", "(fun c => run_req_cc %s (fst c) (snd c))" % cbool(CFG["req_drop"]), "(option str * list qop)")):
         cases = []
         for j in range(n):
             init = rng.choice([None, "max-age=1", "public,max-age=1 , x=\"y z\"", "garbage 1 2", "no-cache"])
